@@ -35,6 +35,11 @@ Readings (DESIGN 3 rule 2)
   * "variants that were already phased in its input are never altered": GT order, phased flag and PS of such a record
     are the same in the output.  (The statement's pipeline unphases everything; the clause only has content for a
     partly phased second input, which is what the solver is free to choose here.)
+  * 2-ALT records: "the haplotype order it had in the original phased VCF" is the ordered pair of VCF allele indices
+    (e.g. 2|1).  A read that covers only 2-ALT variants is not tagged by `whatshap haplotag` (they are not loaded
+    there); whether it is tagged is not asserted, only that a tag, if present, is the read's haplotype.  That a voted
+    2-ALT variant must get phased is, as for biallelic ones, not asserted; the vacuity guard requires that each of the six
+    ordered genotypes is reached as "phased by stage 2 with the original order".
 """
 import contextlib
 import io
